@@ -50,7 +50,7 @@ def ops_job(op, elem, n, cap, fmask=0, alias=0, afl=0, maxcnt=2, size=None, std=
 def cells(tier):
     """(N, CAP) cells: CAP == N is the inline representation"""
     if tier == 'quick': return [(0, 0), (0, 2), (2, 2), (2, 4)]
-    return [(0, 0), (0, 1), (0, 3), (1, 1), (1, 2), (2, 2), (2, 3), (2, 4), (3, 3), (3, 5)]
+    return [(0, 0), (0, 1), (0, 3), (0, 5), (1, 1), (1, 2), (2, 2), (2, 3), (2, 4), (2, 6), (3, 3), (3, 5)]
 
 def elem_supports(elem, op):
     if elem in ('TrM', 'TrMX') and op in OPS_NEED_COPY: return False
@@ -139,3 +139,8 @@ def conv_job(src, dst, via=0, ptr=0, n=2, std='c++17', part=0):
     name = 'conv-%s-to-%s-%s-N%d-p%d' % (nm(src), nm(dst), VIA_NAME[via], n, part) + ('' if std == 'c++17' else '-' + std.replace('+', 'p'))
     return Job(name, 'conv', defs, elems=[CONV_IR[dst], CONV_IR[src]], std=std, unwind=10, maxalloc=8, minalloc=n + 1, expect_witness=['normal return'],
                desc='conversion %s -> %s via %s range, construct/assign/insert/append/emplace, all source values' % (src, dst, VIA_NAME[via]))
+
+def arch_job(triv, n=2, std='c++17'):
+    name = 'arch-%s-N%d' % ('trivial' if triv else 'nontrivial', n) + ('' if std == 'c++17' else '-' + std.replace('+', 'p'))
+    return Job(name, 'arch', {'VF_TRIV': triv, 'VF_N': n, 'VF_MAXCAP': 16}, elems=['%struct.El'], std=std, unwind=18, maxalloc=16, minalloc=n + 1 if n else 1,
+               expect_witness=['normal return'], desc='non-assignable %s archetype: operations that only need construction (count ctor, emplace_back, push_back, reserve, copy/move ctor, shrink_to_fit, pop_back, clear)' % ('trivially copyable' if triv else 'non-trivial'))
